@@ -126,6 +126,32 @@ def run_shard(desc):
                 pos = rnd.choice([0, m - 1, rnd.randrange(m)])
                 needle = twin(elems[pos]) if mode == "twin" else elems[pos]
             lst = ["list", elems]
+            if rnd.random() < 0.35:
+                # structures that differ in exactly one leaf (a map value, a nested element, a key, a trailing element): == must see it
+                def mutate(v):
+                    if v[0] == "list" and v[1]:
+                        i_ = rnd.randrange(len(v[1]))
+                        return ["list", v[1][:i_] + [mutate(v[1][i_])] + v[1][i_ + 1:]]
+                    if v[0] == "map" and v[1]:
+                        i_ = rnd.randrange(len(v[1]))
+                        kk, vv = v[1][i_]
+                        return ["map", v[1][:i_] + [[kk, mutate(vv)] if rnd.random() < 0.7 else [["str", "other"], vv]] + v[1][i_ + 1:]]
+                    if v[0] == "num":
+                        return ["num", str(int(v[1]) + 1), v[2]]
+                    if v[0] == "un":
+                        return ["un", v[1], mutate(v[2])]
+                    if v[0] == "str":
+                        return ["str", v[1] + "x"]
+                    if v[0] == "bool":
+                        return ["bool", not v[1]]
+                    return ["num", "424242", 0]
+                base = rnd.choice([lst, ["map", [[["str", "k%d" % i_], e_] for i_, e_ in enumerate(elems[:6])]], ["list", [["map", [[["str", "a"], e_]]] for e_ in elems[:5]]], ["map", [[["str", "a"], ["num", "1", 0]]]]])
+                other = mutate(base)
+                t = rnd.choice([["bin", "==", base, other], ["bin", "!=", base, other], ["bin", "in", other, ["list", [base, twin(base)]]], ["bin", "==", ["list", [base, other]], ["list", [twin(base), twin(other)]]],
+                                ["un", "not", ["bin", "==", base, other]]])
+                progs.append({"tree": t, "text": ref.Renderer().render(t)})
+                labels.append(None)
+                continue
             t = rnd.choice([
                 ["bin", "in", needle, lst],
                 ["un", "not", ["bin", "in", needle, lst]],
